@@ -1039,6 +1039,11 @@ impl RelationalSlab {
         }
     }
 
+    /// Replaces the contents of this slab with those of a snapshot, in place.
+    pub fn restore_from(&self, snapshot: RelationalSlabSnapshot) {
+        *self.tables.write() = snapshot.tables;
+    }
+
     /// Update a row's columns.
     ///
     /// # Errors
